@@ -1415,7 +1415,11 @@ def generate(repo, lib_dir, workdir):
         sources.append((sp['id'], sk))
     out.append('/-- side conditions recorded by the translator -/')
     out.append('def translatorNotes : List String := [\n' + ',\n'.join('  ' + _q(n) for n in notes) + '\n]\n')
-    out.append('/-- the normalised C++ body each definition above was translated from -/')
+    out.append('/-! the normalised C++ body each definition above was translated from (same normal form as the T2 kernel\n'
+               '    skeletons of vlib/x_kernels.py: Props/C17.lean proves that T1 and T2 read the same bodies) -/')
+    for a, b in sources:
+        out.append('def source_%s : String :=\n  %s' % (a.replace('.', '_'), _q(b)))
+    out.append('')
     out.append('def sources : List (String × String) := [\n' + ',\n'.join('  (%s, %s)' % (_q(a), _q(b)) for a, b in sources) + '\n]\n')
     prod, verif_only, files, tus = lint(repo, lib_dir, workdir, dumps)
     out.append('/-! lint: forbidden sources of nondeterminism in the fault layer (FIBER configuration; files under\n'
